@@ -1,10 +1,21 @@
 package main
 
-// Facts for C15 (job FSM): the heartbeat expiry test of LivenessTracker.Purge,
-//   `if hb.Before(lt.clock.Now().Add(-lt.deadline)) { missing = append(missing, id); delete(lt.m, id) }`,
-// and the registry's resource test of NewAssembly (`Size() < r.taskCount`, slice `[:r.taskCount]`).
-// The Lean model (Model/JobFsm.lean `expired`) interprets the extracted comparison; Props/C15.lean
-// `heartbeat_expiry_exact` is re-checked against it on every run.
+// Facts for C15 (job FSM): WHEN LivenessTracker.Purge considers a heartbeat expired.
+//
+// The recogniser is structural, not textual. It finds, in Purge, the loop over the tracker's map, the statement that
+// deletes the current entry, and the guard under which that statement runs (an enclosing `if`, its else branch, or
+// preceding `if ... { continue }` statements). The guard is evaluated symbolically to a linear comparison
+//     heartbeat - now + c*deadline  REL  0
+// over the three symbols heartbeat (the map value), now (the tracker's clock) and deadline (the tracker's Duration
+// field). It understands Before/After/Equal/Compare, Add/Sub, unary minus, comparisons of durations, !, ||, &&,
+// hoisted locals (`cutoff := now.Add(-d)`), renamed variables, receivers and fields (fields are found by their type),
+// and one-line helper functions/methods of the same file. Equivalent rewrites therefore give the same two facts:
+//     livenessCond          0: hb after limit, 1: hb before limit, 2: not after, 3: not before
+//     livenessMinusDeadline 1: limit = now - deadline, 0: limit = now + deadline
+// (the encoding Model/JobFsm.lean `expired` interprets; Props/C15.lean `heartbeat_expiry_exact` is re-checked against
+// it on every run). A guard outside this family is reported as a problem attributed to the two facts (the last good
+// values are kept and ./check falls back to the correspondence: C15 ops `hbx`/`hbxn` evaluate the expiry test of the
+// real LivenessTracker at, one nanosecond before and one nanosecond after the deadline).
 
 import (
 	"go/ast"
@@ -13,80 +24,476 @@ import (
 
 func init() { extraFactFns = append(extraFactFns, c15Facts) }
 
-func c15Facts(fc *facts) {
-	lf := parseFile("jobs/liveness.go")
-	purge := findFuncOr(lf, "LivenessTracker", "Purge")
-	found := 0
-	var cond, minus uint64
-	ast.Inspect(purge, func(n ast.Node) bool {
-		is, ok := n.(*ast.IfStmt)
+// linear term over (heartbeat, now, deadline)
+type c15Vec [3]int
+
+func (a c15Vec) add(b c15Vec, s int) c15Vec { return c15Vec{a[0] + s*b[0], a[1] + s*b[1], a[2] + s*b[2]} }
+
+// a comparison `vec REL 0`; rel is a subset of {<,=,>} as bits 1,2,4
+type c15Rel struct {
+	vec c15Vec
+	rel int
+}
+
+func c15FlipRel(r int) int { return (r & 2) | ((r & 1) << 2) | ((r & 4) >> 2) }
+
+type c15Env struct {
+	file   *ast.File
+	recv   string // receiver name of the function being evaluated
+	fMap   string // field names of the tracker, found by type
+	fClock string
+	fDur   string
+	terms  map[string]c15Vec
+	bools  map[string]c15Rel
+	depth  int
+}
+
+func (e *c15Env) child() *c15Env {
+	c := *e
+	c.terms = map[string]c15Vec{}
+	c.bools = map[string]c15Rel{}
+	c.depth = e.depth + 1
+	return &c
+}
+
+func c15Unparen(x ast.Expr) ast.Expr {
+	for {
+		p, ok := x.(*ast.ParenExpr)
 		if !ok {
-			return true
+			return x
 		}
-		e := is.Cond
-		neg := false
-		for {
-			if p, ok := e.(*ast.ParenExpr); ok {
-				e = p.X
+		x = p.X
+	}
+}
+
+func (e *c15Env) isRecvField(x ast.Expr, field string) bool {
+	s, ok := c15Unparen(x).(*ast.SelectorExpr)
+	if !ok || field == "" || s.Sel.Name != field {
+		return false
+	}
+	id, ok := c15Unparen(s.X).(*ast.Ident)
+	return ok && id.Name == e.recv
+}
+
+// helper: a function or method of the same file whose body is `[x := e;]* return expr`
+func (e *c15Env) inline(call *ast.CallExpr) (*c15Env, ast.Expr, bool) {
+	if e.depth > 4 {
+		return nil, nil, false
+	}
+	var name, wantRecv string
+	switch f := c15Unparen(call.Fun).(type) {
+	case *ast.Ident:
+		name = f.Name
+	case *ast.SelectorExpr:
+		id, ok := c15Unparen(f.X).(*ast.Ident)
+		if !ok || id.Name != e.recv {
+			return nil, nil, false
+		}
+		name, wantRecv = f.Sel.Name, "x"
+	default:
+		return nil, nil, false
+	}
+	for _, d := range e.file.Decls {
+		fd, ok := d.(*ast.FuncDecl)
+		if !ok || fd.Name.Name != name || fd.Body == nil || (fd.Recv != nil) != (wantRecv != "") {
+			continue
+		}
+		c := e.child()
+		if fd.Recv != nil {
+			if len(fd.Recv.List) != 1 || len(fd.Recv.List[0].Names) != 1 {
+				return nil, nil, false
+			}
+			c.recv = fd.Recv.List[0].Names[0].Name
+		} else {
+			c.recv = ""
+		}
+		var params []string
+		for _, p := range fd.Type.Params.List {
+			for _, n := range p.Names {
+				params = append(params, n.Name)
+			}
+		}
+		if len(params) != len(call.Args) {
+			return nil, nil, false
+		}
+		for i, a := range call.Args {
+			if v, ok := e.term(a); ok {
+				c.terms[params[i]] = v
+			} else if r, ok := e.cond(a); ok {
+				c.bools[params[i]] = r
+			} else {
+				return nil, nil, false
+			}
+		}
+		for i, st := range fd.Body.List {
+			if i == len(fd.Body.List)-1 {
+				rs, ok := st.(*ast.ReturnStmt)
+				if !ok || len(rs.Results) != 1 {
+					return nil, nil, false
+				}
+				return c, rs.Results[0], true
+			}
+			if !c.bind(st) {
+				return nil, nil, false
+			}
+		}
+	}
+	return nil, nil, false
+}
+
+// bind records `x := expr` / `var x = expr` when expr is a time, a duration or a condition; other statements that
+// cannot influence the guard (none are expected in these helpers) make the shape unknown
+func (e *c15Env) bind(st ast.Stmt) bool {
+	var names []*ast.Ident
+	var vals []ast.Expr
+	switch s := st.(type) {
+	case *ast.AssignStmt:
+		if s.Tok != token.DEFINE && s.Tok != token.ASSIGN {
+			return false
+		}
+		for _, l := range s.Lhs {
+			id, ok := l.(*ast.Ident)
+			if !ok {
+				return false
+			}
+			names = append(names, id)
+		}
+		vals = s.Rhs
+	case *ast.DeclStmt:
+		gd, ok := s.Decl.(*ast.GenDecl)
+		if !ok || gd.Tok != token.VAR {
+			return false
+		}
+		for _, sp := range gd.Specs {
+			vs := sp.(*ast.ValueSpec)
+			if len(vs.Values) == 0 {
+				continue // `var missing []string`
+			}
+			names = append(names, vs.Names...)
+			vals = append(vals, vs.Values...)
+		}
+	default:
+		return false
+	}
+	if len(names) != len(vals) {
+		return false
+	}
+	for i, n := range names {
+		if v, ok := e.term(vals[i]); ok {
+			e.terms[n.Name] = v
+			delete(e.bools, n.Name)
+		} else if r, ok := e.cond(vals[i]); ok {
+			e.bools[n.Name] = r
+			delete(e.terms, n.Name)
+		} else {
+			delete(e.terms, n.Name) // some other local (the list of purged ids, ...): irrelevant unless used in the guard
+			delete(e.bools, n.Name)
+		}
+	}
+	return true
+}
+
+// term evaluates a time.Time or time.Duration expression
+func (e *c15Env) term(x ast.Expr) (c15Vec, bool) {
+	switch t := c15Unparen(x).(type) {
+	case *ast.Ident:
+		v, ok := e.terms[t.Name]
+		return v, ok
+	case *ast.SelectorExpr:
+		if e.isRecvField(t, e.fDur) {
+			return c15Vec{0, 0, 1}, true
+		}
+	case *ast.IndexExpr:
+		if e.isRecvField(t.X, e.fMap) {
+			return c15Vec{1, 0, 0}, true // the entry looked up by the loop key
+		}
+	case *ast.UnaryExpr:
+		if v, ok := e.term(t.X); ok {
+			switch t.Op {
+			case token.SUB:
+				return c15Vec{}.add(v, -1), true
+			case token.ADD:
+				return v, true
+			}
+		}
+	case *ast.BinaryExpr:
+		a, ok1 := e.term(t.X)
+		b, ok2 := e.term(t.Y)
+		if ok1 && ok2 {
+			switch t.Op {
+			case token.ADD:
+				return a.add(b, 1), true
+			case token.SUB:
+				return a.add(b, -1), true
+			}
+		}
+	case *ast.CallExpr:
+		if s, ok := c15Unparen(t.Fun).(*ast.SelectorExpr); ok {
+			switch {
+			case s.Sel.Name == "Now" && len(t.Args) == 0 && e.isRecvField(s.X, e.fClock):
+				return c15Vec{0, 1, 0}, true
+			case (s.Sel.Name == "Add" || s.Sel.Name == "Sub") && len(t.Args) == 1:
+				a, ok1 := e.term(s.X)
+				b, ok2 := e.term(t.Args[0])
+				if ok1 && ok2 {
+					if s.Sel.Name == "Add" {
+						return a.add(b, 1), true
+					}
+					return a.add(b, -1), true
+				}
+			}
+		}
+		if c, body, ok := e.inline(t); ok {
+			return c.term(body)
+		}
+	}
+	return c15Vec{}, false
+}
+
+func c15IsZero(x ast.Expr) bool {
+	l, ok := c15Unparen(x).(*ast.BasicLit)
+	return ok && l.Kind == token.INT && l.Value == "0"
+}
+
+var c15RelOf = map[token.Token]int{token.LSS: 1, token.EQL: 2, token.GTR: 4, token.LEQ: 3, token.GEQ: 6, token.NEQ: 5}
+
+// cond evaluates a boolean expression to one comparison
+func (e *c15Env) cond(x ast.Expr) (c15Rel, bool) {
+	switch t := c15Unparen(x).(type) {
+	case *ast.Ident:
+		r, ok := e.bools[t.Name]
+		return r, ok
+	case *ast.UnaryExpr:
+		if t.Op == token.NOT {
+			if r, ok := e.cond(t.X); ok {
+				return c15Rel{r.vec, 7 &^ r.rel}, true
+			}
+		}
+	case *ast.BinaryExpr:
+		if t.Op == token.LOR || t.Op == token.LAND {
+			a, ok1 := e.cond(t.X)
+			b, ok2 := e.cond(t.Y)
+			if !ok1 || !ok2 {
+				return c15Rel{}, false
+			}
+			if b.vec == (c15Vec{}).add(a.vec, -1) {
+				b = c15Rel{a.vec, c15FlipRel(b.rel)}
+			}
+			if a.vec != b.vec {
+				return c15Rel{}, false
+			}
+			if t.Op == token.LOR {
+				return c15Rel{a.vec, a.rel | b.rel}, true
+			}
+			return c15Rel{a.vec, a.rel & b.rel}, true
+		}
+		if rel, ok := c15RelOf[t.Op]; ok {
+			// a.Compare(b) REL 0
+			if c, ok := c15Unparen(t.X).(*ast.CallExpr); ok && c15IsZero(t.Y) {
+				if s, ok := c15Unparen(c.Fun).(*ast.SelectorExpr); ok && s.Sel.Name == "Compare" && len(c.Args) == 1 {
+					a, ok1 := e.term(s.X)
+					b, ok2 := e.term(c.Args[0])
+					if ok1 && ok2 {
+						return c15Rel{a.add(b, -1), rel}, true
+					}
+				}
+			}
+			a, ok1 := e.term(t.X)
+			b, ok2 := e.term(t.Y)
+			if ok1 && ok2 {
+				return c15Rel{a.add(b, -1), rel}, true
+			}
+		}
+	case *ast.CallExpr:
+		if s, ok := c15Unparen(t.Fun).(*ast.SelectorExpr); ok && len(t.Args) == 1 {
+			rel := map[string]int{"Before": 1, "Equal": 2, "After": 4}[s.Sel.Name]
+			if rel != 0 {
+				a, ok1 := e.term(s.X)
+				b, ok2 := e.term(t.Args[0])
+				if ok1 && ok2 {
+					return c15Rel{a.add(b, -1), rel}, true
+				}
+			}
+		}
+		if c, body, ok := e.inline(t); ok {
+			return c.cond(body)
+		}
+	}
+	return c15Rel{}, false
+}
+
+func c15EndsWithContinue(b *ast.BlockStmt) bool {
+	if len(b.List) == 0 {
+		return false
+	}
+	br, ok := b.List[len(b.List)-1].(*ast.BranchStmt)
+	return ok && br.Tok == token.CONTINUE && br.Label == nil
+}
+
+func (e *c15Env) deletesEntry(n ast.Node) bool {
+	found := false
+	ast.Inspect(n, func(n ast.Node) bool {
+		if c, ok := n.(*ast.CallExpr); ok {
+			if id, ok := c.Fun.(*ast.Ident); ok && id.Name == "delete" && len(c.Args) == 2 && e.isRecvField(c.Args[0], e.fMap) {
+				found = true
+			}
+		}
+		return !found
+	})
+	return found
+}
+
+// guard of the statement that deletes the current entry, walking a block; conds = guards collected so far
+func (e *c15Env) guardIn(list []ast.Stmt, conds []c15Rel) ([]c15Rel, bool) {
+	for _, st := range list {
+		switch s := st.(type) {
+		case *ast.IfStmt:
+			if s.Init != nil && !e.bind(s.Init) {
+				return nil, false
+			}
+			inBody := e.deletesEntry(s.Body)
+			inElse := s.Else != nil && e.deletesEntry(s.Else)
+			if !inBody && !inElse {
+				if c15EndsWithContinue(s.Body) && s.Else == nil {
+					r, ok := e.cond(s.Cond)
+					if !ok {
+						return nil, false
+					}
+					conds = append(conds, c15Rel{r.vec, 7 &^ r.rel})
+				}
 				continue
 			}
-			if u, ok := e.(*ast.UnaryExpr); ok && u.Op == token.NOT {
-				neg = !neg
-				e = u.X
-				continue
+			r, ok := e.cond(s.Cond)
+			if !ok || (inBody && inElse) {
+				return nil, false
 			}
-			break
-		}
-		c, ok := e.(*ast.CallExpr)
-		if !ok || len(c.Args) != 1 {
-			return true
-		}
-		sel, ok := c.Fun.(*ast.SelectorExpr)
-		if !ok || selName(sel.X) != "hb" {
-			return true
-		}
-		var code uint64
-		switch sel.Sel.Name {
-		case "After":
-			code = 0
-		case "Before":
-			code = 1
+			if inBody {
+				return e.guardIn(s.Body.List, append(conds, r))
+			}
+			eb, ok := s.Else.(*ast.BlockStmt)
+			if !ok {
+				return nil, false
+			}
+			return e.guardIn(eb.List, append(conds, c15Rel{r.vec, 7 &^ r.rel}))
+		case *ast.AssignStmt, *ast.DeclStmt:
+			if e.deletesEntry(st) {
+				return nil, false
+			}
+			e.bind(st)
 		default:
+			if e.deletesEntry(st) {
+				return conds, true
+			}
+		}
+	}
+	return nil, false
+}
+
+func c15Facts(fc *facts) {
+	names := []string{"livenessCond", "livenessMinusDeadline"}
+	bad := func(format string, a ...any) { problemFor(names, "LivenessTracker.Purge: "+format, a...) }
+	lf := parseFile("jobs/liveness.go")
+	if lf == nil {
+		return
+	}
+	env := &c15Env{file: lf, terms: map[string]c15Vec{}, bools: map[string]c15Rel{}}
+	// the tracker's fields, by type
+	ast.Inspect(lf, func(n ast.Node) bool {
+		ts, ok := n.(*ast.TypeSpec)
+		if !ok || ts.Name.Name != "LivenessTracker" {
 			return true
 		}
-		if neg {
-			code += 2
+		if st, ok := ts.Type.(*ast.StructType); ok {
+			for _, f := range st.Fields.List {
+				for _, n := range f.Names {
+					switch t := f.Type.(type) {
+					case *ast.MapType:
+						env.fMap = n.Name
+					case *ast.SelectorExpr:
+						switch selName(t) {
+						case "time.Duration":
+							env.fDur = n.Name
+						case "clocks.Clock":
+							env.fClock = n.Name
+						}
+					}
+				}
+			}
 		}
-		// the limit: lt.clock.Now().Add(±lt.deadline)
-		add, ok := c.Args[0].(*ast.CallExpr)
-		if !ok || len(add.Args) != 1 {
-			return true
-		}
-		addSel, ok := add.Fun.(*ast.SelectorExpr)
-		if !ok || addSel.Sel.Name != "Add" {
-			return true
-		}
-		now, ok := addSel.X.(*ast.CallExpr)
-		if !ok || selName(now.Fun) != "lt.clock.Now" || len(now.Args) != 0 {
-			return true
-		}
-		arg := add.Args[0]
-		m := uint64(0)
-		if u, ok := arg.(*ast.UnaryExpr); ok && u.Op == token.SUB {
-			m = 1
-			arg = u.X
-		}
-		if selName(arg) != "lt.deadline" {
-			return true
+		return false
+	})
+	if env.fMap == "" || env.fDur == "" || env.fClock == "" {
+		bad("the struct no longer has one map, one time.Duration and one clocks.Clock field")
+		return
+	}
+	purge := findFunc(lf, "LivenessTracker", "Purge")
+	if purge == nil || purge.Recv == nil || len(purge.Recv.List) != 1 || len(purge.Recv.List[0].Names) != 1 {
+		bad("method not found")
+		return
+	}
+	env.recv = purge.Recv.List[0].Names[0].Name
+	var guards []c15Rel
+	found := 0
+	for _, st := range purge.Body.List {
+		rs, ok := st.(*ast.RangeStmt)
+		if !ok || !env.isRecvField(rs.X, env.fMap) {
+			if !env.deletesEntry(st) {
+				env.bind(st) // hoisted `now := ...`, `cutoff := ...`
+			}
+			continue
 		}
 		found++
-		cond, minus = code, m
-		return true
-	})
-	if found == 1 {
-		fc.set("livenessCond", cond, true, "")
-		fc.set("livenessMinusDeadline", minus, true, "")
-	} else {
-		problem("LivenessTracker.Purge: expected exactly one `if hb.Before|After(lt.clock.Now().Add(±lt.deadline))`, found %d", found)
+		loop := env.child()
+		loop.depth = env.depth
+		for k, v := range env.terms {
+			loop.terms[k] = v
+		}
+		if id, ok := rs.Value.(*ast.Ident); ok && rs.Value != nil && id.Name != "_" {
+			loop.terms[id.Name] = c15Vec{1, 0, 0}
+		}
+		g, ok := loop.guardIn(rs.Body.List, nil)
+		if !ok {
+			bad("the guard of the statement deleting an entry is outside the recognised family (comparisons of the entry's time with the clock and the deadline)")
+			return
+		}
+		guards = g
 	}
+	if found != 1 {
+		bad("expected exactly one loop over the tracker's map, found %d", found)
+		return
+	}
+	// conjunction of the collected guards: all about the same linear term
+	if len(guards) == 0 {
+		bad("entries are deleted unconditionally")
+		return
+	}
+	res := guards[0]
+	for _, g := range guards[1:] {
+		if g.vec == (c15Vec{}).add(res.vec, -1) {
+			g = c15Rel{res.vec, c15FlipRel(g.rel)}
+		}
+		if g.vec != res.vec {
+			bad("several unrelated guards")
+			return
+		}
+		res.rel &= g.rel
+	}
+	if res.vec[0] < 0 {
+		res = c15Rel{(c15Vec{}).add(res.vec, -1), c15FlipRel(res.rel)}
+	}
+	if res.vec[0] != 1 || res.vec[1] != -1 || (res.vec[2] != 1 && res.vec[2] != -1) {
+		bad("the guard compares %d*heartbeat %+d*now %+d*deadline with 0, not heartbeat with now -/+ deadline", res.vec[0], res.vec[1], res.vec[2])
+		return
+	}
+	code, ok := map[int]uint64{4: 0, 1: 1, 3: 2, 6: 3}[res.rel]
+	if !ok {
+		bad("the guard's relation (bits %d of <,=,>) is not one of <, >, <=, >=", res.rel)
+		return
+	}
+	minus := uint64(0)
+	if res.vec[2] == 1 {
+		minus = 1
+	}
+	fc.set("livenessCond", code, true, "")
+	fc.set("livenessMinusDeadline", minus, true, "")
 }
